@@ -15,6 +15,8 @@ TRUSTED = ['rustc MIR']
 
 def run(ctx):
     rep = Report('C18')
+    import gen_thrift as _g
+    _g.corpus_generated(rep, 'G18.h')
     prog = mirlib.load_program([ws_facts('ws')])
     cg = mirlib.CallGraph(prog)
     pr.merge_semantics(rep, 'R18.b', prog, cg)
